@@ -595,9 +595,31 @@ func orNone(s string) string {
 // ---------------------------------------------------------------------------
 // C06: revocation
 
-type MonC06 struct{ baseMon }
+type MonC06 struct {
+	baseMon
+	// queueAt[step][cid|rid] = queue flag of that connection's subscription at the
+	// quiescent end of the step (hooks): tells whether a trigger in the next step
+	// meets a subscription that is holding events back
+	queueAt map[int]map[string]int
+}
 
-func NewMonC06() *MonC06 { m := &MonC06{}; m.init("C06"); return m }
+func NewMonC06() *MonC06 { m := &MonC06{queueAt: map[int]map[string]int{}}; m.init("C06"); return m }
+
+func (m *MonC06) OnStepEnd(w *World, step int) {
+	if q := queueFlags(w); q != nil {
+		m.queueAt[step] = q
+	}
+}
+
+// deferredBit marks, in queueAt, a subscription whose access re-check is
+// deferred until its queued events are released (flagReaccess).
+const deferredBit = 1 << 8
+
+// deferredBefore reports whether, at the start of the given step, the
+// subscription still had a deferred re-check (false without hooks).
+func (m *MonC06) deferredBefore(step int, cid, rid string) bool {
+	return m.queueAt[step-1][cid+"|"+rid]&deferredBit != 0
+}
 
 // directAt returns the client's direct count for rid at log time t (frames before t).
 func directAt(c *Client, rid string, t int) int {
@@ -679,15 +701,29 @@ func (m *MonC06) OnEnd(w *World) []Violation {
 				// an access request for the subscription that is in flight when the
 				// trigger arrives serves the re-check (DESIGN 3.6: a trigger between
 				// request and answer does not invalidate the answer)
+				fullRID := name
+				if q != "" {
+					fullRID += "?" + q
+				}
+				// (the deferred re-check joins a request that is in flight when the
+				// events are released; but if that request's answer arrives first - the
+				// re-check is still deferred at the start of the answer's step - a new
+				// request has to follow the answer)
+				from := tr.T
 				for k := range b.answers {
 					a := &b.answers[k]
 					if a.CID == c.CID && a.Name == name && a.Query == q && a.ReqT < tr.T && a.T > tr.T {
+						if w.stepOfT(a.T) > w.stepOfT(tr.T) && m.deferredBefore(w.stepOfT(a.T), c.CID, fullRID) {
+							m.class("recheck_still_deferred_at_answer")
+							from = a.T
+							break
+						}
 						rq = &log[a.ReqT]
 						m.class("recheck_rides_on_pending_request")
 						break
 					}
 				}
-				for j := tr.T + 1; j < len(log) && rq == nil; j++ {
+				for j := from + 1; j < len(log) && rq == nil; j++ {
 					e := &log[j]
 					if e.Kind == "mq_req" && e.Subject == "access."+name && e.CID == c.CID && e.Query == q {
 						rq = e
